@@ -29,7 +29,7 @@ MCTxs ==
     ("t9"  :> T(<<"t1.0">>, <<"k3">>, <<O(0, "k1", "t9.0")>>)) @@                \* spends an output of t1, fee 4
     ("t10" :> [T(<<"g1">>, <<"k1">>, <<O(1, "k2", "t10.0")>>) EXCEPT !.chain = FALSE]) @@
     ("t11" :> [T(<<"g2">>, <<"k2">>, <<O(1, "k3", "t11.0")>>) EXCEPT !.sig = FALSE]) @@
-    ("t12" :> T(<<"g2">>, <<"k2">>, <<OX(1, "k3", "t12.0")>>)) @@                \* output to an inactive zone, otherwise valid; conflicts with t6
+    ("t12" :> T(<<"g2">>, <<"k2">>, <<OX(1, "k3", "t12.0")>>)) @@                \* output to an inactive zone (refused at once), otherwise valid; conflicts with t6
     ("t13" :> T(<<"g3">>, <<"k1">>, <<O(0, "k1", "t13.0")>>))                    \* output to the address of its own input
 
 \* the transactions that take part in blocks, conflicts with them and re-injection (deeper behaviours on fewer transactions)
